@@ -372,6 +372,9 @@ def r20(ctx: Ctx) -> RuleReport:
                         (norm(joined) == norm(tgt.value) and tgt.slice.lower is None and tgt.slice.upper is None)
                     regroup = same and (_min_ws_len(ctx, fi, n.value.elts[0].func.value, 0, n) or 0) >= 1
                 alias = isinstance(tgt, ast.Name) and isinstance(n.value, ast.Name)     # `current = rest`: switches which list later pieces go to
+                if isinstance(tgt, ast.Name) and _only_an_option_argument(ctx, ta, fi, tgt.id):
+                    rep.ok(key, fi.loc(n), f'`{tgt.id}` only travels on as an option argument of the formatter helpers')
+                    continue
                 if regroup:
                     rep.ok(key, fi.loc(n), 'projection-preserving regrouping: parts = [<whitespace>.join(parts)]')
                 elif alias:
@@ -386,6 +389,8 @@ def r20(ctx: Ctx) -> RuleReport:
                 key = f'{fi.module.name}:{fi.qualname}: separator of {norm(n)[:50]}'
                 if ml is not None and ml >= 1:
                     rep.ok(key, fi.loc(n), f'whitespace of length >= {ml}')
+                elif ml == 0 and n.args and _pieces_end_in_whitespace(n.args[0]):
+                    rep.ok(key, fi.loc(n), 'every joined piece ends in whitespace of its own')
                 elif ml == 0:
                     rep.violation(key, fi.loc(n), 'the separator is whitespace that can be empty (e.g. `\' \' * column` with column 0): two written '
                                   'pieces are glued together and lex as one token')
@@ -404,6 +409,59 @@ def r20(ctx: Ctx) -> RuleReport:
                     good = a is not None and norm(a) == 'indent'
                     rep.add(f'{fi.module.name}:{fi.qualname}: {norm(call)[:60]} passes indent on', fi.loc(call), 'ok' if good else 'undecided')
     return rep
+
+
+def _only_an_option_argument(ctx: Ctx, ta: Taint, fi: FuncInfo, name: str) -> bool:
+    """every read of `name` is (possibly inside set(...)/frozenset(...)/tuple(...)) an argument of a formatter helper in the position of one of its option parameters"""
+    pm = ctx.repo.parent_map(fi.node)
+    reads = [x for x in walk_local(fi.node) if isinstance(x, ast.Name) and x.id == name and isinstance(x.ctx, ast.Load)]
+    if not reads:
+        return False
+    for x in reads:
+        arg = x
+        par = pm.get(id(arg))
+        if isinstance(par, ast.Call) and isinstance(par.func, ast.Name) and par.func.id in ('set', 'frozenset', 'tuple', 'list') and par.args == [arg]:
+            arg, par = par, pm.get(id(par))
+        kwname = None
+        if isinstance(par, ast.keyword):
+            kwname, par = par.arg, pm.get(id(par))
+        if not isinstance(par, ast.Call):
+            return False
+        ts = [t.func for t in ctx.cg.resolve_call(par, fi) if t.kind == 'func' and t.func.qualname in ta.tainted_params]
+        if len(ts) != 1:
+            return False
+        callee = ts[0]
+        if kwname is None:
+            if arg not in par.args:
+                return False
+            i = par.args.index(arg)
+            if i >= len(callee.positional):
+                return False
+            kwname = callee.positional[i]
+        if kwname not in ta.tainted_params[callee.qualname]:
+            return False
+    return True
+
+
+def _pieces_end_in_whitespace(arg: ast.AST) -> bool:
+    """the joined iterable is a comprehension / display whose every element is a template that ends in a whitespace literal"""
+    def ends_ws(e) -> bool:
+        if isinstance(e, ast.Constant) and isinstance(e.value, str):
+            return bool(e.value) and e.value[-1].isspace() and e.value[-1] in ' \t\n\r'
+        if isinstance(e, ast.JoinedStr) and e.values:
+            return ends_ws(e.values[-1]) if isinstance(e.values[-1], ast.Constant) else False
+        if isinstance(e, ast.BinOp) and isinstance(e.op, ast.Add):
+            return ends_ws(e.right)
+        if isinstance(e, ast.Call) and isinstance(e.func, ast.Attribute) and e.func.attr == 'format' and isinstance(e.func.value, ast.Constant) \
+                and isinstance(e.func.value.value, str):
+            t = e.func.value.value
+            return bool(t) and t[-1] in ' \t\n\r'
+        return False
+    if isinstance(arg, (ast.GeneratorExp, ast.ListComp)):
+        return ends_ws(arg.elt)
+    if isinstance(arg, (ast.List, ast.Tuple)) and arg.elts:
+        return all(ends_ws(x) for x in arg.elts)
+    return False
 
 
 def _mentions_content(ta: Taint, q: str, e: ast.AST) -> bool:
@@ -590,6 +648,11 @@ def sym_str(e: ast.AST, truthy: Dict[str, bool], binds: Dict[str, ast.AST]) -> O
         if t is None:
             return None
         return sym_str(e.values[0] if t else e.values[1], truthy, binds)
+    if isinstance(e, ast.BoolOp) and isinstance(e.op, ast.And) and len(e.values) == 2:
+        t = sym_truth(e.values[0], truthy)              # `value and ' ' + value`: the (empty) value itself when it is empty
+        if t is None:
+            return None
+        return sym_str(e.values[1] if t else e.values[0], truthy, binds)
     if isinstance(e, ast.JoinedStr):
         out = []
         for v in e.values:
@@ -775,6 +838,7 @@ def r45(ctx: Ctx) -> RuleReport:
                 for st in walk_local(h0.node):
                     if isinstance(st, ast.Assign) and len(st.targets) == 1 and isinstance(st.targets[0], ast.Name):
                         binds[st.targets[0].id] = _Ren().visit(_copy.deepcopy(st.value))
+    terminated = False
     for kt, vt in itertools.product([True, False], repeat=2):
         truthy = {k: kt, v: vt}
         got = sym_str(line_expr, truthy, binds)
@@ -784,6 +848,9 @@ def r45(ctx: Ctx) -> RuleReport:
             rep.undecided(key, where, f'the metadata line expression is not understood: {norm(line_expr)[:80]}')
             continue
         good = _merge(got) == _merge(want)
+        if not good and _merge(got) == _merge(want + [('lit', '\n')]):
+            # each line carries its own line feed (the lines are then concatenated, not joined): the same text
+            good = terminated = True
         rep.add(key, where, 'ok' if good else 'violation',
                 '' if good else f'writes {_merge(got)} but the comment scanner (split at "::", then key up to the first space) needs {_merge(want)}')
     # metadata lines come before the node, one per line
@@ -817,6 +884,12 @@ def r45(ctx: Ctx) -> RuleReport:
             if oks_ and isinstance(sv_, str) and '\n' not in sv_:
                 rep.violation(kj, fi.loc(rets[0]), f'the parts are joined with {sv_!r}: a comment runs to the end of its line, so the first metadata line swallows the rest')
                 decided = True
+    if not decided and not good and terminated and len(rets) == 1 and isinstance(rets[0].value, ast.BinOp) and isinstance(rets[0].value.op, ast.Add):
+        # header + node, with header = ''.join(<lines that end in a line feed>)
+        hd = single_def(ctx, fi, rets[0].value.left) if isinstance(rets[0].value.left, ast.Name) else rets[0].value.left
+        if isinstance(hd, ast.Call) and isinstance(hd.func, ast.Attribute) and hd.func.attr == 'join' and try_fold(hd.func.value) == (True, '') \
+                and isinstance(rets[0].value.right, ast.Call) and norm(rets[0].value.right.func) == '_format_node':
+            good = True
     if not decided:
         rep.add(kj, fi.loc(), 'ok' if good else 'undecided')
     # reader side
